@@ -2,22 +2,24 @@
 (* calculate_design_conditions as a state machine over star-shaped lattice polygons,    *)
 (* checked against DesignCondOps!Design.                                                 *)
 (*   Close : pick the columns (swap_axis), append the first point                        *)
-(*   Probe : for every abscissa intersect the closed polygon with the vertical probe     *)
-(*           [x,x] x [ylo, yhi] exactly as _intersection does (closed parameter ranges,  *)
-(*           parallel = no solution, one reported point per segment pair - a vertex on   *)
-(*           the probe is reported by both adjacent edges), skip if nothing was hit,     *)
-(*           else keep the requested abscissa and the largest (UseMin: smallest) hit     *)
+(*   Probe : for every abscissa x collect one ordinate per edge of the closed polygon     *)
+(*           whose closed x-range contains x (linear interpolation along the edge; for a   *)
+(*           vertical edge the larger of its two ordinates), skip if there is none, else   *)
+(*           keep the requested abscissa and the largest (UseMin: smallest) ordinate       *)
 (*   Finish                                                                              *)
-(* Named deviations: MaxHits = 2 is the removed `assert len(x) <= 2` (D12);              *)
-(* Margin = "max" is the probe as it was coded before the repair, y in [min - 0.1 max,   *)
-(* max + 0.1 max], too short when max < 0 (YDown > 2(G-1) exposes it); Margin = "range"   *)
-(* is the probe as coded now, margin 0.1 (max - min).                                     *)
+(* Algo = "edges" is the code as it is.  Named deviations (each must violate its          *)
+(* invariant):  Algo = "open_ends": an edge does not report a crossing at an END of its     *)
+(* x-range - what the former generic line-line solve did within round-off of a vertex      *)
+(* (repaired by eab52a1);  Algo = "probe_max" / "probe_range": the former vertical probe    *)
+(* line y in [min - m, max + m] with m = 0.1 max resp. 0.1 (max - min), parallel edges      *)
+(* not reported - "probe_max" is too short when max < 0 (YDown > 2(G-1) exposes it);       *)
+(* MaxHits = 2 is the removed `assert len(x) <= 2`;  UseMin = np.min for np.max.           *)
 EXTENDS DesignCondOps, TLC, Json
 
 CONSTANTS G,          \* vertices on {0,2,..,2(G-1)}^2 (+ shifts), star centre (G-1, G-1)
           MaxV,       \* at most MaxV vertices
           XLeft, YDown,  \* the lattice is shifted left / down by this many units (>= 0)
-          UseMin, MaxHits, Margin,
+          UseMin, MaxHits, Algo,
           BothOrders  \* abscissa lists ascending and descending (FALSE: ascending only)
 VARIABLES pc, P, X, swap, cl, out, err
 
@@ -61,19 +63,22 @@ Close ==
 
 Ys == {cl[i][2] : i \in 1..Len(cl)}
 (* probe limits times 10 *)
-Lo10 == IF Margin = "max" THEN 10 * SetMin(Ys) - SetMax(Ys) ELSE 10 * SetMin(Ys) - (SetMax(Ys) - SetMin(Ys))
-Hi10 == IF Margin = "max" THEN 10 * SetMax(Ys) + SetMax(Ys) ELSE 10 * SetMax(Ys) + (SetMax(Ys) - SetMin(Ys))
+Lo10 == IF Algo = "probe_max" THEN 10 * SetMin(Ys) - SetMax(Ys) ELSE 10 * SetMin(Ys) - (SetMax(Ys) - SetMin(Ys))
+Hi10 == IF Algo = "probe_max" THEN 10 * SetMax(Ys) + SetMax(Ys) ELSE 10 * SetMax(Ys) + (SetMax(Ys) - SetMin(Ys))
 
-(* hits of the probe at x as a SEQUENCE (one entry per reporting segment), as the 4x4   *)
-(* solve yields them: segment i from a to b, t = (x - a.x)/(b.x - a.x) in [0,1], and the *)
-(* point must lie within the probe: Lo10 <= 10 y <= Hi10                                  *)
+(* ordinates collected at x as a SEQUENCE (one entry per reporting edge) *)
+Probing == Algo \in {"probe_max", "probe_range"}
+EdgeReports(a, b, x) ==
+    CASE Algo = "edges" -> Spans(a, b, x)
+      [] Algo = "open_ends" -> Min2(a[1], b[1]) < x /\ x < Max2(a[1], b[1])
+      [] OTHER -> a[1] # b[1] /\ Spans(a, b, x) /\ Lo10 < Hi10
+                  /\ RatLeq(Rat(Lo10, 10), OrdAt(a, b, x)) /\ RatLeq(OrdAt(a, b, x), Rat(Hi10, 10))
+EdgeOrd(a, b, x) == IF a[1] = b[1] THEN Rat(Max2(a[2], b[2]), 1) ELSE OrdAt(a, b, x)
 RECURSIVE HitSeq(_, _)
 HitSeq(x, i) ==
     IF i >= Len(cl) THEN <<>>
     ELSE LET a == cl[i] b == cl[i + 1] IN
-           (IF a[1] # b[1] /\ Spans(a, b, x) /\ Lo10 < Hi10
-               /\ RatLeq(Rat(Lo10, 10), OrdAt(a, b, x)) /\ RatLeq(OrdAt(a, b, x), Rat(Hi10, 10))
-            THEN <<OrdAt(a, b, x)>> ELSE <<>>) \o HitSeq(x, i + 1)
+           (IF EdgeReports(a, b, x) THEN <<EdgeOrd(a, b, x)>> ELSE <<>>) \o HitSeq(x, i + 1)
 
 RECURSIVE ProbeFrom(_)
 ProbeFrom(k) ==
